@@ -945,9 +945,12 @@ def _aliases(fn):
     value, site, banned, mutated, loads, last_use = {}, {}, set(), set(), {}, {}
     name_stores = {}   # name -> [(order, loops)]
     text_stores = {}   # text of a stored attribute / subscripted object -> [(order, loops)]
-    impure_at, loops_at, use_sites = {}, {}, {}
+    impure_at, loops_at, use_sites, selfcall_at = {}, {}, {}, {}
     for st, order, loops, in_try, body, i in table:
         loops_at[order] = loops
+        if not isinstance(st, (ast.FunctionDef, ast.AsyncFunctionDef, ast.ClassDef)):
+            selfcall_at[order] = any(isinstance(c, ast.Call) and ((isinstance(c.func, ast.Attribute) and _root_name(c.func) in ("self", "cls")) or
+                                                                 (isinstance(c.func, ast.Name) and c.func.id not in PURE_CALLS)) for c in _own_nodes(st))
         if not isinstance(st, (ast.FunctionDef, ast.AsyncFunctionDef, ast.ClassDef)):
             heads = [st] if not any(isinstance(getattr(st, f_, None), list) and getattr(st, f_) and isinstance(getattr(st, f_)[0], ast.stmt) for f_ in ("body", "orelse", "finalbody")) \
                 else [x for x in (getattr(st, "test", None), getattr(st, "iter", None)) if x is not None] + [it.context_expr for it in getattr(st, "items", [])]
@@ -1049,7 +1052,17 @@ def _aliases(fn):
         block_end = last_nested.get(order_of.get(id(body[-1]), order), order)
         if any(not (order < u <= block_end) for u in use_sites.get(k, [])):
             continue
-        if any(isinstance(x, ast.Attribute) for x in ast.walk(v)):
+        field_path = _is_path(v) and isinstance(v, ast.Attribute) and all(x.attr.startswith("_") for x in ast.walk(v) if isinstance(x, ast.Attribute)) \
+            and not any(isinstance(x, ast.Subscript) for x in ast.walk(v))
+        if field_path:
+            # `_m = self._param_model` just names an object: what matters is that the field is not rebound - textually (checked above) or by a method of the object
+            # itself that runs in between (any call on self / a bare function call); reads and stores through the alias do not rebind it
+            us = use_sites.get(k, [])
+            if any(selfcall_at.get(o, False) for o in range(order + 1, int(max(us)) if us else order)):
+                continue
+            if any(lp not in loops and any(selfcall_at.get(o, False) for o, l in loops_at.items() if lp in l) for u in us for lp in loops_at.get(u, ())):
+                continue
+        elif any(isinstance(x, ast.Attribute) for x in ast.walk(v)):
             # a value that reads object state does not move across a statement that may change the state (a call with possible effects):
             # neither a statement between the assignment and the last use, nor the body of a loop that is entered after the assignment
             us = use_sites.get(k, [])
